@@ -143,6 +143,7 @@ func runC15(c *core.Ctx) {
 	c15Rank(x)
 	c15Sticky(x)
 	c15Dictionary(x)
+	(&c14x{c, newG(c, "./lib/rac")}).leafAssign()
 }
 
 // ---------------------------------------------------------------------------
